@@ -1477,6 +1477,66 @@ fn timing() {
     out_line(&json!({"create_user_s": c, "verify_s": t0.elapsed().as_secs_f64() / 5.0}));
 }
 
+/// `auth removed`: what "removed" means for ANY identifier, the issued uid or a string that differs from it by case / padding /
+/// look-alike characters: when remove_user(x) answers Ok, x is gone - exists(x) is false, verify(x, password) is false - and so is
+/// whoever x stood for: if x was accepted as the user before (exists(x) or verify(x, password) answered true), that user's token no
+/// longer authenticates.  When remove_user(x) answers Err, nothing changed.  (Auth.tla: after Act_RemoveUser(u) ok, u \notin users,
+/// the session of u is gone; a refused call leaves the state alone.)  Added after a seeded case-insensitive lookup with an exact
+/// removal was missed (round 8): remove_user(UPPER) answered Ok and removed nothing.
+fn removed() {
+    let mut bad: Vec<Value> = vec![];
+    let mut cases = 0u64;
+    for pepper in [false, true] {
+        for variant in 0..7usize {
+            let db = Db(Arc::new(Mutex::new(Vec::new())));
+            let mut cfg = humphrey_auth::config::AuthConfig::default();
+            if pepper { cfg = cfg.with_pepper(b"verif-pepper-\xff\x00\x01"); }
+            let mut prov = AuthProvider::new(db.clone()).with_config(cfg);
+            let _other = prov.create_user("other-pw").unwrap_or_default();
+            let uid = match prov.create_user("pw-1") { Ok(u) => u, Err(_) => continue };
+            let _third = prov.create_user("third-pw").unwrap_or_default();
+            let tok = prov.create_session(&uid).unwrap_or_default();
+            let x = match variant {
+                0 => uid.clone(),
+                1 => uid.to_uppercase(),
+                2 => format!("{} ", uid),
+                3 => format!(" {}", uid),
+                4 => format!("{}\u{a0}", uid),
+                5 => uid.replacen('-', "\u{2010}", 1),
+                _ => { let mut m = uid.clone(); if let Some(i) = m.find(|c: char| c.is_ascii_lowercase()) { let u = m[i..i + 1].to_uppercase(); m.replace_range(i..i + 1, &u); } m }
+            };
+            cases += 1;
+            let r = std::panic::catch_unwind(std::panic::AssertUnwindSafe(|| {
+                let accepted_before = prov.exists(&x) || prov.verify(&x, "pw-1");
+                let res = prov.remove_user(&x).is_ok();
+                let exists_after = prov.exists(&x);
+                let verify_after = prov.verify(&x, "pw-1");
+                let tok_after = prov.get_uid_by_token(&tok).is_ok();
+                let orig_exists = prov.exists(&uid);
+                let orig_verify = prov.verify(&uid, "pw-1");
+                (accepted_before, res, exists_after, verify_after, tok_after, orig_exists, orig_verify)
+            }));
+            match r {
+                Err(_) => bad.push(json!({"variant": variant, "pepper": pepper, "what": "panic"})),
+                Ok((acc, res, ex, ver, tk, oe, ov)) => {
+                    let mut what = vec![];
+                    if res && ex { what.push("remove_user(x) = Ok but exists(x) is still true"); }
+                    if res && ver { what.push("remove_user(x) = Ok but verify(x, password) is still true"); }
+                    if res && acc && tk { what.push("x was accepted as the user, remove_user(x) = Ok, but the user's token still authenticates"); }
+                    if !res && !(oe && ov && tk) { what.push("remove_user(x) = Err but the user is no longer intact"); }
+                    if variant == 0 && !res { what.push("remove_user(uid) of an existing user refused"); }
+                    const NAMES: [&str; 7] = ["the uid", "upper case", "trailing blank", "leading blank", "trailing NBSP", "U+2010 for the first hyphen", "one letter upper case"];
+                    if !what.is_empty() {
+                        bad.push(json!({"variant": variant, "pepper": pepper, "x_is": NAMES[variant],
+                            "accepted_before": acc, "remove_ok": res, "exists_after": ex, "verify_after": ver, "token_after": tk, "uid_exists_after": oe, "uid_verifies_after": ov, "what": what}));
+                    }
+                }
+            }
+        }
+    }
+    out_line(&json!({"summary": true, "cases": cases, "bad": bad}));
+}
+
 fn main() {
     quiet_panics();
     let a: Vec<String> = std::env::args().collect();
@@ -1486,6 +1546,7 @@ fn main() {
         Some("rerun") if a.len() >= 5 => rerun(&a[2..]),
         Some("tokens") if a.len() >= 3 => tokens(&a[2..]),
         Some("timing") => timing(),
+        Some("removed") => removed(),
         _ => {
             eprintln!("usage: auth graph <pepper> <lifeDefault> <lifeRefresh> <lifeLong> <argon_budget> <walks> <walklen> [max_states] | trace <n> <maxlen> <lD> <lR> <lL> [threads] | timing");
             std::process::exit(2)
